@@ -15,7 +15,8 @@
    theorem is the witness that the same statement was false there. *)
 From Coq Require Import ZArith List Bool.
 From PTK Require Import Lib.Sx Lib.Py Gen.C18_Tables Gen.Whitespace Model.C18_Fragments Model.C18_Ansi Model.C18_Html
-  Proofs.C18_FragmentsFacts Proofs.C18_AnsiFacts Proofs.C18_HtmlFacts.
+  Model.C18_Convert Model.C18_AnsiGrammar
+  Proofs.C18_FragmentsFacts Proofs.C18_AnsiFacts Proofs.C18_HtmlFacts Proofs.C18_ConvertFacts Proofs.C18_AnsiStrip Proofs.C18_HtmlTemplate.
 Import ListNotations.
 Open Scope Z_scope.
 
@@ -62,20 +63,74 @@ Theorem C18_apply_style_text : forall st frs, map ftext (apply_style st frs) = m
 Proof. exact apply_style_text. Qed.
 Print Assumptions C18_apply_style_text.
 
+(* ---- to_formatted_text / merge_formatted_text ------------------------ *)
+
+(* merge_formatted_text: the conversion of the merged value is the
+   concatenation of the conversions of its items (a pure function of what the
+   items are: converting the same object again gives the same list), *)
+Theorem C18_merge_concat : forall ac items,
+  convert ac (VMerge items) = concat_res (map (convert false) items).
+Proof. exact convert_merge. Qed.
+Print Assumptions C18_merge_concat.
+
+(* so its plain text is the concatenation of the items' plain texts, in order. *)
+Theorem C18_merge_plain_text : forall ac items r,
+  convert ac (VMerge items) = Ok r ->
+  exists rs, map (convert false) items = map Ok rs /\
+             fragment_list_to_text r = concat (map fragment_list_to_text rs).
+Proof. exact merge_plain_text. Qed.
+Print Assumptions C18_merge_plain_text.
+
+(* A fragment list is the canonical form: converting a conversion result
+   again (any auto_convert) is the identity. *)
+Theorem C18_to_formatted_text_idempotent : forall st ac v r,
+  to_formatted_text st ac v = Ok r ->
+  forall ac', to_formatted_text [] ac' (VList r) = Ok r.
+Proof. exact to_formatted_text_idempotent. Qed.
+Print Assumptions C18_to_formatted_text_idempotent.
+
+(* A callable is transparent; the extra style never touches the text. *)
+Theorem C18_convert_call : forall ac v, convert ac (VCall v) = convert false v.
+Proof. exact convert_call. Qed.
+Print Assumptions C18_convert_call.
+
+Theorem C18_to_formatted_text_style_text : forall st ac v r0 r,
+  to_formatted_text [] ac v = Ok r0 -> to_formatted_text st ac v = Ok r ->
+  map ftext r = map ftext r0.
+Proof. exact to_formatted_text_style_text. Qed.
+Print Assumptions C18_to_formatted_text_style_text.
+
 (* ---- ANSI ------------------------------------------------------------- *)
 
-(* Plain text (no ESC, \x9b, \001) comes back as itself, unstyled, one
-   fragment per character; converting back to plain text gives the input.
-   PARTIAL with respect to the property text: for strings WITH control
-   sequences the equation `plain text = input minus its sequences` is not
-   proved in Coq (it needs a second, grammar-level definition of the
-   sequences); it is checked by the oracle of harness/c18.py against an
-   independent regular-expression tokeniser on every generated input. *)
-Theorem C18_ansi_plain_partial : forall k s,
+(* The plain text of ANSI(s), for EVERY string s: the input with its
+   recognised sequences removed ([ansi_strip]: defined on the grammar-level
+   tokeniser of Model/C18_AnsiGrammar.v - ordinary characters, ESC x, 7/8-bit
+   CSI + parameters + final character with `CSI n C` = min(n, 9999) spaces,
+   \001..\002 regions, an unterminated sequence at the end), and the
+   zero-width fragments are exactly the payloads of the \001..\002 regions. *)
+Theorem C18_ansi_plain : forall s,
+  exists o, ansi_parse cfg_now s = Ok o /\
+            fragment_list_to_text o = ansi_strip s /\
+            zw_payloads o = ansi_zero_width s.
+Proof. exact ansi_plain_text. Qed.
+Print Assumptions C18_ansi_plain.
+
+(* the tokens are a partition of the input: nothing is skipped or invented *)
+Theorem C18_ansi_tokens_partition : forall s, concat (map raw (tokens s)) = s.
+Proof. exact tokens_partition. Qed.
+Print Assumptions C18_ansi_tokens_partition.
+
+(* a string without ESC, \x9b, \001 is its own plain text, one unstyled
+   fragment per character *)
+Theorem C18_ansi_strip_plain : forall s, no_intro s = true -> ansi_strip s = s.
+Proof. exact ansi_strip_plain. Qed.
+Print Assumptions C18_ansi_strip_plain.
+
+Theorem C18_ansi_plain_fragments : forall k s,
   no_intro s = true ->
   ansi_parse k s = Ok (as_text [] s) /\ fragment_list_to_text (as_text [] s) = s.
 Proof. exact ansi_plain. Qed.
-Print Assumptions C18_ansi_plain_partial.
+Print Assumptions C18_ansi_plain_fragments.
 
 (* The parser accepts every string. *)
 Theorem C18_ansi_total : forall s, exists o, ansi_parse cfg_now s = Ok o.
@@ -215,6 +270,39 @@ Theorem C18_html_space_guard : forall v,
   forall c, In c v -> mem_Z c Gen.Whitespace.py_isspace_table = false.
 Proof. exact html_space_guard_now. Qed.
 Print Assumptions C18_html_space_guard.
+
+(* Whole templates.  A template is a sequence of text segments, start tags
+   (attributes in either quote style) and end tags; literal text is given by
+   the characters it stands for, holes may occur in text and in attribute
+   values.  [render] substitutes the ESCAPED values and produces markup;
+   [denote] is the tree walk of the same template with the values as DATA (no
+   parsing of values at all).  Parsing the rendered markup reaches the state
+   the template denotes (equal up to the bookkeeping of "]]>" detection): the
+   same tree with the values as data.  [tpl_ok]: the template stays inside the
+   document element, names are well formed, attribute names distinct, no \r in
+   text data and no \t \n \r in attribute data. *)
+Theorem C18_html_whole_template : forall tpl vals h1 h2,
+  same_tree h1 h2 -> tpl_ok tpl vals h2 ->
+  match denote tpl vals h2 with
+  | Ok hd => exists h', hrun cfg_now h1 (render tpl vals) = Ok h' /\ same_tree h' hd
+  | Err e => hrun cfg_now h1 (render tpl vals) = Err e
+  end.
+Proof. exact whole_template. Qed.
+Print Assumptions C18_html_whole_template.
+
+(* its building blocks: a start tag with holes in its attribute values, an end tag *)
+Theorem C18_html_start_tag : forall h nm ats vals,
+  inside h -> valid_name nm -> ats_ok [] ats vals ->
+  hrun cfg_now h (fst (render_item (TOpen nm ats) vals))
+  = fst (denote_item (TOpen nm ats) vals h).
+Proof. exact start_tag. Qed.
+Print Assumptions C18_html_start_tag.
+
+Theorem C18_html_end_tag : forall h nm,
+  inside h -> valid_name nm ->
+  hrun cfg_now h (fst (render_item (TClose nm) [])) = fst (denote_item (TClose nm) [] h).
+Proof. exact end_tag. Qed.
+Print Assumptions C18_html_end_tag.
 
 (* Pinned snapshot: a single-quoted attribute was closed by the value, which added bg. *)
 Theorem C18_html_attr_inert_single_quote_pinned_refuted :
